@@ -323,6 +323,14 @@ class PseudoNetCDFMaskedVariable(PseudoNetCDFVariable, np.ma.MaskedArray):
                 # a numpy scalar (arithmetic on rank-0 variables) has no
                 # array view: make it a rank-0 array first
                 result = np.ma.asarray(result)
+            # as in PseudoNetCDFVariable: the type code describes the
+            # values that are given (a float64 mean of an integer variable)
+            try:
+                declared = np.dtype('S1' if typecode == 'c' else typecode)
+            except TypeError:
+                declared = None
+            if declared != result.dtype:
+                typecode = result.dtype.char
         else:
             shape = []
             for d in dimensions:
